@@ -189,7 +189,7 @@ func concat(lhs, rhs *sysl.Value_List) *sysl.Value {
 	result := MakeValueList()
 	{
 		result := result.GetList()
-		result.Value = lhs.Value
+		result.Value = append(make([]*sysl.Value, 0, len(lhs.Value)+len(rhs.Value)), lhs.Value...)
 		result.Value = append(result.Value, rhs.Value...)
 		logrus.Tracef("concatList: lhs %d | rhs %d = %d\n", len(lhs.Value), len(rhs.Value), len(result.Value))
 	}
